@@ -40,7 +40,12 @@ CleanupIds == <<"c1", "c2">>
 
 Beh(b, k, d) == [b |-> b, k |-> k, d |-> d]
 Ret == Beh("ret", None, 0)
-AllKinds == {"fail", "err", "skip"}
+\* "ki": KeyboardInterrupt - not an Exception: recorded like any other, the later units still run, and the run is
+\* not a success.  Raised by setUp / the test / tearDown it is recorded at once by the machinery shared with RunTest:
+\* reported as an error and re-raised by run() after stopTest.  Raised by a cleanup it only counts if it is the
+\* last exception of the cleanup loop (_run_cleanups keeps one): C14 does not say more, so the model records it as
+\* "kic" - not a success, and it may or may not leave run().
+AllKinds == {"fail", "err", "skip", "ki"}
 Behaviours ==
     {Ret} \cup {Beh("raise", k, 0) : k \in AllKinds}
           \cup {Beh("dfire", None, d) : d \in Delays}
@@ -138,7 +143,8 @@ Complete ==
     /\ now' = waitUntil
     /\ LET u == cur
            ok == beh[u].b \in {"ret", "dfire"} IN
-       /\ raised' = IF ok THEN raised ELSE Append(raised, beh[u].k)
+       /\ raised' = IF ok THEN raised
+                     ELSE Append(raised, IF beh[u].k = "ki" /\ u \in {"c1", "c2"} THEN "kic" ELSE beh[u].k)
        /\ failsSeen' = (failsSeen \/ ~ok)
        /\ setupOk' = IF u = "setUp" THEN ok ELSE setupOk
        /\ todo' = Follow(u, ok) \o todo
@@ -189,9 +195,10 @@ Account ==
 
 Outcomes == {"success", "failure", "error", "skip", "xfail", "uxsuccess"}
 \* C14 fixes the outcome only as far as: success iff nothing went wrong; timeout / interrupt => error
+HasKi(rs) == \E i \in DOMAIN rs : rs[i] = "ki"
 AllowedOutcomes(rs, to, ir) ==
     IF rs = <<>> THEN {"success"}
-    ELSE IF to \/ ir THEN {"error"}
+    ELSE IF to \/ ir \/ HasKi(rs) THEN {"error"}
     ELSE Outcomes \ {"success"}
 
 Report ==
@@ -245,9 +252,14 @@ SuccessIff == pc = "done" => ((rlog[2] = "success") <=> CleanRun)
 TimeoutIsError == pc = "done" /\ ~Finished /\ T < intr => rlog[2] = "error" /\ timedOut
 InterruptIsError == pc = "done" /\ ~Finished /\ intr < T => rlog[2] = "error" /\ stopCalled
 AfterRun == pc = "done" => pending = {} /\ logged = 0 /\ unhandled = 0
+\* a KeyboardInterrupt raised (or carried by the Deferred) of any unit that completed is re-raised by run()
+KiUnits == {i \in DOMAIN Plan : i \in Started /\ beh[Plan[i]].k = "ki" /\ EndAt(i) < Deadline
+                                 /\ Plan[i] \in {"setUp", "body", "tearDown"}}
+BaseSurvives == pc = "done" => (HasKi(raised) <=> KiUnits # {}) /\ (HasKi(raised) => rlog[2] = "error")
 
 -----------------------------------------------------------------------------
 Expected == [ran |-> ran, allowed |-> AllowedOutcomes(raised, timedOut, interrupted), stop |-> stopCalled,
+             prop |-> IF HasKi(raised) THEN "must" ELSE IF \E i \in DOMAIN raised : raised[i] = "kic" THEN "may" ELSE "no",
              timedOut |-> timedOut, interrupted |-> interrupted]
 Scenario == [beh |-> beh, side |-> side, ncl |-> ncl, T |-> T, intr |-> intr, variant |-> variant]
 \* one export per scenario: Report is the only nondeterministic action, export before it
